@@ -335,6 +335,18 @@ func (ev *SpecEnv) eval(e SExpr) TV {
 			if x.bv {
 				return TV{tc.App("bvnot", at.sort, at), a.t}
 			}
+		case "&":
+			// address of a field / element: an interior pointer
+			pl := ev.evalPlace(n.X)
+			if pl == nil {
+				unsupp("spec: cannot take the address of %s", showSpec(n.X))
+			}
+			var t types.Type
+			if pl.kind == pkLocal {
+				unsupp("spec: address of local")
+			}
+			_, t, _ = x.placeKey(pl)
+			return TV{pl, types.NewPointer(t)}
 		}
 		unsupp("spec unary %s", n.Op)
 	case *SBinary:
